@@ -105,9 +105,13 @@ example : (8 : Nat) ≤ 64 ∧ (8 : Nat) ≤ 32 ∧ 8 ∣ 64 ∧ 8 ∣ 32 := by 
     came from `f32` log2 bounds of word-size dependent tightness: base 8 → 16, precision 32 gave 24
     digits with 64-bit and 23 with 32-bit words) -/
 theorem with_base_precision_word_size_independent (W₁ W₂ B NewB p : Nat) (hB : 1 ≤ B) (hN : 2 ≤ NewB) :
-    Text.withBasePrecision W₁ B NewB p = Text.withBasePrecisionSpec B NewB p ∧
+    (p * Text.ilogExact B NewB ≤ 2 ^ 64 - 1 →
+      Text.withBasePrecision W₁ B NewB p = Text.withBasePrecisionSpec B NewB p) ∧
     Text.withBasePrecision W₁ B NewB p = Text.withBasePrecision W₂ B NewB p :=
-  ⟨Text.withBasePrecision_eq_spec W₁ B NewB p hB hN, Text.withBasePrecision_word_size W₁ W₂ B NewB p⟩
+  ⟨fun hp => Text.withBasePrecision_eq_spec W₁ B NewB p hB hN hp, Text.withBasePrecision_word_size W₁ W₂ B NewB p⟩
+
+/-- the hypothesis `p·n ≤ usize::MAX` is met by every precision that fits in memory, e.g. base 16 → 2 (n = 4) -/
+example : 1000 * Text.ilogExact 16 2 ≤ 2 ^ 64 - 1 := by decide
 
 example : Text.withBasePrecision 32 8 16 32 = 24 ∧ Text.withBasePrecision 64 8 16 32 = 24 := by
   constructor <;> decide
